@@ -386,6 +386,10 @@ struct GravLayout {
     hdr_comments: bool,
     /// comment directly after the last value of the file
     last_comment: bool,
+    /// where the line breaks go (see grav_render), with its two parameters
+    wrap: u8,
+    wrap_k: u16,
+    wrap_seed: u32,
 }
 
 /// A trailing comment: everything from '#' to the end of the line is discarded, whether or not
@@ -436,13 +440,94 @@ fn grav_render(raw: &GravSpec, lay: &GravLayout) -> (String, GravSpec) {
         2 => &[2, 4, 6],
         _ => &[4, 6],
     };
-    for (i, h) in hdr.iter().enumerate() {
-        if lay.indent && (i == 0 || breaks.contains(&i)) {
-            t.push_str("   ");
+    let per_line = match lay.per_line % 4 {
+        0 => raw.cols * raw.bands,
+        1 => raw.bands,
+        2 => 1,
+        _ => 5,
+    };
+    // all tokens of the file: six header numbers, then the values
+    let mut toks: Vec<String> = hdr.to_vec();
+    let mut written = Vec::with_capacity(raw.values.len());
+    for v in raw.values.iter() {
+        let s = fmt_num(v.0, lay.val_style % 8);
+        written.push(F(s.parse::<f64>().expect("own spelling parses")));
+        toks.push(s);
+    }
+    let n = toks.len();
+    // Line layout, independent of the content: the format is a whitespace separated number
+    // sequence, so a line break may follow any token (or none at all).
+    let mut brk = vec![false; n];
+    match lay.wrap % 10 {
+        // structured: header split as chosen, then rows / nodes / values / 5 per line
+        0..=3 => {
+            for b in breaks {
+                brk[*b - 1] = true;
+            }
+            for i in 0..n - 6 {
+                if (i + 1) % per_line == 0 {
+                    brk[6 + i] = true;
+                }
+            }
         }
-        t.push_str(h);
-        if breaks.contains(&(i + 1)) {
-            if lay.trailing_comments && (i == 5 || lay.hdr_comments) {
+        // the whole file on one line
+        4 => {}
+        // k numbers per line, counted from the first header number (k = 1..n; 7 is a classic)
+        5 => {
+            let k = if lay.wrap_k % 5 == 0 { 7 } else { 1 + lay.wrap_k as usize % n };
+            for i in 0..n {
+                if (i + 1) % k == 0 {
+                    brk[i] = true;
+                }
+            }
+        }
+        // header and first row on one line, then one row per line
+        6 => {
+            let row = raw.cols * raw.bands;
+            for i in 0..n - 6 {
+                if (i + 1) % row == 0 {
+                    brk[6 + i] = true;
+                }
+            }
+        }
+        // the header ends in the middle of a line: break after 1..5 header numbers, next break
+        // somewhere in the data
+        7 => {
+            brk[lay.wrap_k as usize % 5] = true;
+            let mut x = lay.wrap_seed as u64 | 1;
+            let mut i = 6 + (lay.wrap_seed as usize % (n - 6));
+            while i < n {
+                brk[i] = true;
+                x ^= x << 13;
+                x ^= x >> 7;
+                x ^= x << 17;
+                i += 1 + (x as usize % 9);
+            }
+        }
+        // random breaks: after every token with probability 1/2, 1/4 or 1/8
+        _ => {
+            let mut x = (lay.wrap_seed as u64) << 1 | 1;
+            let mask = [1u64, 3, 7][lay.wrap_k as usize % 3];
+            for b in brk.iter_mut() {
+                x ^= x << 13;
+                x ^= x >> 7;
+                x ^= x << 17;
+                *b = (x >> 9) & mask == 0;
+            }
+        }
+    }
+    let mut line_no = 0usize;
+    let mut at_line_start = true;
+    for (i, tok) in toks.iter().enumerate() {
+        if lay.indent && at_line_start {
+            t.push_str(if i < 6 { "   " } else { "    " });
+        }
+        t.push_str(tok);
+        let last = i + 1 == n;
+        if brk[i] || (last && lay.last_comment) {
+            // trailing comments sit where a line ends
+            let want = if i < 6 { lay.trailing_comments && (i == 5 || lay.hdr_comments) } else { (lay.trailing_comments && line_no % 3 == 0) || (last && lay.last_comment) };
+            if want {
                 if lay.glue % 6 == 0 && i == 5 {
                     t.push_str(" # header ends here 99 98");
                 } else {
@@ -450,38 +535,14 @@ fn grav_render(raw: &GravSpec, lay: &GravLayout) -> (String, GravSpec) {
                 }
             }
             t.push_str(nl);
-        } else {
-            t.push_str(sep);
-        }
-    }
-    if lay.blank_lines {
-        t.push_str(nl);
-    }
-    let per_line = match lay.per_line % 4 {
-        0 => raw.cols * raw.bands,
-        1 => raw.bands,
-        2 => 1,
-        _ => 5,
-    };
-    let mut written = Vec::with_capacity(raw.values.len());
-    for (i, v) in raw.values.iter().enumerate() {
-        let s = fmt_num(v.0, lay.val_style % 8);
-        written.push(F(s.parse::<f64>().expect("own spelling parses")));
-        if lay.indent && i % per_line == 0 {
-            t.push_str("    ");
-        }
-        t.push_str(&s);
-        let last = i + 1 == raw.values.len();
-        if (i + 1) % per_line == 0 || (last && lay.last_comment) {
-            if (lay.trailing_comments && (i / per_line) % 3 == 0) || (last && lay.last_comment) {
-                t.push_str(&trailing_comment(lay.glue, i));
-            }
-            t.push_str(nl);
-            if lay.blank_lines && (i / per_line) % 4 == 3 {
+            if lay.blank_lines && (i == 5 || (i > 5 && line_no % 4 == 3)) {
                 t.push_str(nl);
             }
+            line_no += 1;
+            at_line_start = true;
         } else {
             t.push_str(sep);
+            at_line_start = false;
         }
     }
     match lay.tail % 4 {
@@ -1696,9 +1757,12 @@ fn grav_layout() -> impl Strategy<Value = GravLayout> {
     (
         (0u8..5, 0u8..4, 0u8..4, 0u8..4, any::<bool>(), any::<bool>()),
         (any::<bool>(), 0u8..6, 0u8..8, any::<bool>(), any::<bool>(), 0u8..4, any::<bool>()),
-        (0u8..6, any::<bool>(), any::<bool>()),
+        (0u8..6, any::<bool>(), any::<bool>(), 0u8..10, any::<u16>(), any::<u32>()),
     )
-        .prop_map(|((comments_top, header_split, per_line, sep, crlf, trailing_comments), (blank_lines, hdr_style, val_style, dlat_neg, dlon_neg, tail, indent), (glue, hdr_comments, last_comment))| GravLayout {
+        .prop_map(|((comments_top, header_split, per_line, sep, crlf, trailing_comments), (blank_lines, hdr_style, val_style, dlat_neg, dlon_neg, tail, indent), (glue, hdr_comments, last_comment, wrap, wrap_k, wrap_seed))| GravLayout {
+            wrap,
+            wrap_k,
+            wrap_seed,
             glue,
             hdr_comments,
             last_comment,
@@ -2362,7 +2426,7 @@ fn main() {
     let side = if thorough { 20 } else { 12 };
     run.section(
         "gravsoft-roundtrip",
-        "random grids (2..12 rows/cols, 1-3 bands; angular with bounds anywhere in [-720, 720] incl. exactly +-90, +-180, +-360, +-720, global 0..360 / -180..180 / -90..90, and bounds just beyond +-720; linear/projected with 0, 1, 2 or 3 of the four bounds within +-720 on either axis, incl. 0 and negative bounds) rendered in random layouts (comments incl. '#' glued to the preceding header number / node value / last value of the file, '#' followed directly by text or a number, '#' alone, comments containing '#'; blank lines, CRLF, tabs, header split over lines, one row/node/value per line, 8 number spellings, either sign of dlat/dlon, with/without final newline); non-trivial = every node value and all four edges verified; distinct by text",
+        "random grids (2..12 rows/cols, 1-3 bands; angular with bounds anywhere in [-720, 720] incl. exactly +-90, +-180, +-360, +-720, global 0..360 / -180..180 / -90..90, and bounds just beyond +-720; linear/projected with 0, 1, 2 or 3 of the four bounds within +-720 on either axis, incl. 0 and negative bounds) rendered in random layouts (comments incl. '#' glued to the preceding header number / node value / last value of the file, '#' followed directly by text or a number, '#' alone, comments containing '#'; line breaks placed independently of the content: structured (header split 1/2/3/6 lines, one row/node/value/5 values per line), whole file on one line, k numbers per line counted from the first header number (k = 1..n, 7), header + first row on one line, header ending mid-line, random breaks after any token; blank lines, CRLF, tabs, 8 number spellings, either sign of dlat/dlon, with/without final newline); non-trivial = every node value and all four edges verified; distinct by text",
         n,
         move || grav_case(side),
         |c: &GravCase, rec: &mut Rec| {
@@ -2416,6 +2480,36 @@ fn main() {
                     }
                     if c.text.contains('\t') {
                         rec.class("layout-tabs");
+                    }
+                    {
+                        // line layout classes, read off the text itself
+                        let b = c.text.as_bytes();
+                        let toks = grav_tokens(b);
+                        let same_line = |i: usize, j: usize| !b[toks[i].1..toks[j].0].contains(&b'\n');
+                        if same_line(5, 6) {
+                            rec.class("lines-header-shares-line-with-values");
+                        } else {
+                            rec.class("lines-break-after-header");
+                        }
+                        if (0..5).any(|i| !same_line(i, i + 1)) {
+                            rec.class("lines-header-split-over-lines");
+                        }
+                        if (0..5).any(|i| !same_line(i, i + 1)) && same_line(5, 6) {
+                            rec.class("lines-header-split-and-ending-mid-line");
+                        }
+                        if same_line(0, toks.len() - 1) {
+                            rec.class("lines-all-numbers-on-one-line");
+                        }
+                        let row = c.spec.cols * c.spec.bands;
+                        if same_line(5, 6) && toks.len() > 6 + row && same_line(6, 5 + row) && !same_line(5 + row, 6 + row) {
+                            rec.class("lines-header-plus-first-row");
+                        }
+                        if (0..toks.len() - 1).all(|i| same_line(i, i + 1) == ((i + 1) % 7 != 0)) {
+                            rec.class("lines-seven-numbers-per-line");
+                        }
+                        if (0..toks.len() - 1).all(|i| !same_line(i, i + 1)) {
+                            rec.class("lines-one-number-per-line");
+                        }
                     }
                     {
                         // '#' glued to the preceding number: in the header, after a node value, at the very end
